@@ -310,9 +310,11 @@ def rule_P2b(prog, fixture=False):
     engine_names = {s["name"] for s in engines}
     draws = 0
     for f in sorted(prog.functions.values(), key=lambda f: (f.file, f.line)):
-        if f.file.endswith("coverage.cc"):
-            continue
+        if f.file.endswith("coverage.cc") or f.get("lambda"):
+            continue          # a lambda's body is analysed in line in its enclosing function, where its captures are defined
         for n in f.walk():
+            if n.k == "VarDecl" and n.decl.get("k") == "local" and ENGINE_TYPES.search(n.type or "") and (n.get("ts") or "").endswith("&"):
+                continue      # a local *reference* to the engine is not a second engine
             if n.k == "VarDecl" and n.decl.get("k") == "local" and ENGINE_TYPES.search(n.type or ""):
                 res.add("P2b:local-engine:%s:%s" % (fkey(f), n.decl["n"]), VIOLATED, "%s:%d" % (prog.rel(f.file), n.line),
                         "%s in %s" % (n.decl["n"], f.short), "a local engine object is an entropy source rng(seed) does not control")
@@ -336,6 +338,16 @@ def rule_P2b(prog, fixture=False):
                         ok = True
                     elif a.k == "CallExpr" and a.callee and _returns_tls_engine(prog, a.callee.get("usr"), engine_names):
                         ok = True       # accessor idiom: engine() { thread_local std::mt19937 e; return e; }
+                    elif a.k == "DeclRefExpr" and a.decl.get("k") == "local":
+                        # std::mt19937& engine = _engine();  (possibly captured by a lambda)
+                        from .ir import _single_def
+                        init = _single_def(a)
+                        if init is not None:
+                            i0 = init.strip_all()
+                            if i0.k == "CallExpr" and i0.callee and _returns_tls_engine(prog, i0.callee.get("usr"), engine_names):
+                                ok = True
+                            elif i0.k == "DeclRefExpr" and i0.decl.get("k") == "global" and i0.decl.get("qn") in engine_names and i0.decl.get("tls"):
+                                ok = True
                 okey = "P2b:draw:%s:l%d" % (fkey(f), 0)
                 if ok:
                     res.add("P2b:draw:%s" % fkey(f), DISCHARGED, "%s:%d" % (prog.rel(f.file), n.line),
